@@ -1,5 +1,6 @@
 import Ptn.C11.Model
 import Ptn.C11.Value
+import Ptn.C11.Tensordot
 /-! Line-protocol handler for the C11 model (core Lean only).
 
   mat <shape…> | <out…> | <in…>            → `T=<shape after transposition> rows=<m> cols=<n>` | error
@@ -9,6 +10,11 @@ import Ptn.C11.Value
   matidx <shape…> | <out…> | <in…> | <i> <j>  → flat C-order position in the INPUT of the entry that
                                              `tensor_matricization` puts at `[i, j]` (value-level model) | error
   contr <ucontr|vcontr|equal>              → `<a> <b>`: exponents of S (in halves) absorbed by U and Vh
+  tdot <shape a> <data a> <shape b> <data b> <axes a> <axes b>
+                                           → `shape=<shape> data=<entries in C order>` of `arrTensordot` (the
+                                             value-level model of `numpy.tensordot`) on integer arrays | error
+                                             (comma-separated lists, `-` = empty list; `bad-op` when the number
+                                             of entries is not the size of the shape)
 
   modes: reduced | full | keep.  Empty lists are written as nothing between the bars.
 -/
@@ -39,6 +45,27 @@ def parseThree (ts : List String) : Option (List Nat × List Nat × List Nat) :=
 
 def showNats (l : List Nat) : String :=
   if l.isEmpty then "-" else ",".intercalate (l.map toString)
+
+def parseCsvNats (s : String) : Option (List Nat) :=
+  if s = "-" then some [] else (s.splitOn ",").mapM String.toNat?
+
+def parseCsvInts (s : String) : Option (List Int) :=
+  if s = "-" then some [] else (s.splitOn ",").mapM String.toInt?
+
+def showInts (l : List Int) : String :=
+  if l.isEmpty then "-" else ",".intercalate (l.map toString)
+
+def handleTdot (sa da sb db xa xb : String) : String :=
+  match parseCsvNats sa, parseCsvInts da, parseCsvNats sb, parseCsvInts db, parseCsvNats xa, parseCsvNats xb with
+  | some sa, some da, some sb, some db, some xa, some xb =>
+    if da.length ≠ prod sa ∨ db.length ≠ prod sb then "bad-op"
+    else
+      let arrA := da.toArray
+      let arrB := db.toArray
+      match arrTensordot (⟨sa, fun k => arrA.getD k 0⟩ : Arr Int) ⟨sb, fun k => arrB.getD k 0⟩ xa xb with
+      | some C => s!"shape={showNats C.shape} data={showInts ((List.range (prod C.shape)).map C.data)}"
+      | none => "error"
+  | _, _, _, _, _, _ => "bad-op"
 
 def showLeg : Leg → String
   | .orig a => toString a
@@ -90,6 +117,7 @@ def handle (args : List String) : String :=
     match kept.toNat?, parseThree rest with
     | some k, some (sh, a, b) => showSVD (truncatedSVD sh a b k)
     | _, _ => "bad-op"
+  | ["tdot", sa, da, sb, db, xa, xb] => handleTdot sa da sb db xa xb
   | ["contr", m] =>
     let cm : Option ContrMode :=
       if m = "ucontr" then some .ucontr else if m = "vcontr" then some .vcontr
